@@ -576,6 +576,20 @@ func (n *node) invariants(after string) {
 				}
 			}
 		}
+		// the commit offset is held by a majority: the leader and at least one of its two followers store
+		// every entry up to it (a follower restored from a snapshot holds what the snapshot covers)
+		if _, _, commit, ok := server.VerifPeekTracker(n.lc); ok && commit >= 0 {
+			holders := 0
+			for _, f := range n.f {
+				if f != nil && f.base+int64(len(f.log))-1 >= commit {
+					holders++
+				}
+			}
+			if holders == 0 {
+				n.failf("commit-offset-not-held-by-quorum", "after %s the leader of term %d has commit offset %d, which neither follower stores (f1 ends at %d, f2 ends at %d): only the leader holds it", after, n.ackTerm, commit,
+					n.f[0].base+int64(len(n.f[0].log))-1, n.f[1].base+int64(len(n.f[1].log))-1)
+			}
+		}
 		db := server.VerifLeaderDB(n.lc)
 		var keys []string
 		for k := range n.acked {
